@@ -7,7 +7,8 @@ Open Scope N_scope.
 
 Definition DEFAULT_ROLLOVER : N := 1073741824.   (* LogOptions::default(): rollover_size: 1 << 30 (a literal in the source) *)
 
-Definition log_batch_buffer (es : list entry) : list N := batch_buffer BLOCK_BITS es.
+Definition log_batch_build (es : list entry) : list (option err) * list N :=
+  let '(rs, b) := batch_build BLOCK_BITS wb0 es in (rs, wb_buffer b).
 Definition log_write (crc : list N -> N) (rollover : N) (bufs : list (list N)) :=
   write_log BLOCK_BITS crc rollover bufs.
 Definition log_read (crc : list N -> N) (file : list N) : list entry * rend :=
